@@ -7,7 +7,7 @@ HOOKS = dict(
     add_only=True,
 )
 ENGINES = [
-    dict(name="verus-units", path="/verif/vk/verus_unit.py", serves_properties=["C01", "C02", "C03", "C10"],
+    dict(name="verus-units", path="/verif/vk/verus_unit.py", serves_properties=["C01", "C02", "C03", "C10", "C15"],
          kind_free_text="mechanical extraction of the real functions (vk/extract.py, rules R1-R8) + contracts/<unit>.vc, discharged by Verus 0.2026.09.13 / Z3; "
                         "every diagnostic is mapped back to a named obligation (function::label)"),
 ]
@@ -41,6 +41,16 @@ CHECKS = {
         level_note="notify_watchers and the removed-loop are TRUSTED to append exactly one record (their try_send loops are not verified). Subscription windows, "
                    "watch/unwatch/disconnect races, delivery on full channels and 'ends up current' are NOT decided.",
     ),
+    "C15": dict(
+        engine="verus-units", design_ref="DESIGN.md §5 C15", technique="deductive verification (Verus/Z3) of function contracts and a state invariant on extracted real code",
+        text="Unbounded proof over all states: ReplicationMessage::{new,ack,replicated,is_full_acknowledged,get_copy} and "
+             "Databases::{register_pending_opp,acknowledge_pending_opp,get_pending_opp_copy} keep the invariant 'replicate_count - ack_count == number of target nodes "
+             "that have not acknowledged' and 'an operation is in the pending map exactly while some target node has not acknowledged'; acknowledgements count once per "
+             "node, duplicates / unknown operations / foreign nodes change neither the counters nor which operations are pending. Because the invariant is "
+             "required and re-established by every operation, it holds after every finite sequence of register/ack events (induction over the contracts).",
+        level_note="Sequentialised atomics and mutex (R2/R3). Trusted: HashMap::get_mut specification, fetch_add as wrapping add, vstd HashMap/Set specs. "
+                   "Call-site condition 'an op is sent to a node at most once while un-acked' is an unproved precondition. The dispatcher's ack / rp handlers are glue.",
+    ),
     "C10": dict(
         engine="verus-units", design_ref="DESIGN.md §5 C10", technique="deductive verification (Verus/Z3): absence of overflow / unwrap-on-None / OOB in extracted real code",
         text="Partial: for every client-reachable function under contract, Verus proves absence of arithmetic overflow, failed unwrap and out-of-bounds access for ALL "
@@ -61,7 +71,6 @@ NOT_APPLICABLE = {
     "C12": "contract not completed yet (in progress)",
     "C13": "contract not completed yet (in progress)",
     "C14": "A bound on inter-node traffic is a global ranking argument over the dispatcher and the replication loop on several nodes.",
-    "C15": "contract not completed yet (in progress)",
     "C16": "contract not completed yet (in progress)",
     "C17": "The counter's balance is decided in the use-db arm of the dispatcher (previous selection is not released there); inc/dec/left contracts alone do not carry the property.",
     "C18": "Both S3 strategies are async AWS-SDK network code inside a tokio runtime.",
